@@ -98,7 +98,9 @@ class Bar(object):
             notes = NoteContainer(notes)
         elif isinstance(notes, list):
             notes = NoteContainer(notes)
-        if self.current_beat + 1.0 / duration <= self.length or self.length == 0.0:
+        # current_beat is a sum of floats: allow for its rounding error, which is
+        # far below the shortest note value, when testing against the bar length
+        if self.current_beat + 1.0 / duration <= self.length + 1e-9 or self.length == 0.0:
             self.bar.append([self.current_beat, duration, notes])
             self.current_beat += 1.0 / duration
             return True
